@@ -21,7 +21,11 @@ def run(chk):
     except ImportError:
         chk.notes.append("effect/allocation contracts (b) not built yet")
 
+    base_to_dense_cost(chk)
+
     def replayer(ob):
+        if (ob.witness or {}).get("engine") == "TODENSE":
+            return to_dense_replay()
         if (ob.witness or {}).get("engine") == "TAB":
             return tab.replay_point(ob.witness)
         if (ob.witness or {}).get("engine") == "EFFECT":
@@ -30,3 +34,111 @@ def run(chk):
         from vcgen import cex
         return cex.replay(ob.witness)
     return replayer
+
+
+def base_to_dense_cost(chk):
+    """Cost contract of the generic LinearOperator.to_dense (used by the exact diagonal / trace blocks, which densify n x 100 slices of an identity):
+    the REAL method runs on a recording operator with symbolic shape (r, c); on every path the identity it allocates has dimension d <= 8 min(r, c) and
+    is multiplied on the side whose dimension it matches -- so densifying a tall or wide block never allocates the square of its LONG side."""
+    import time
+    import z3
+    from cola.ops.operator_base import LinearOperator
+    from vcgen import alg
+    from vcgen.core import DISCHARGED, FAILED, UNSUPPORTED, Ob
+    from vcgen.proxy import CTX, SInt, Unsupported, explore, iterm
+    t0 = time.time()
+    results = {}
+
+    class Eye:
+        def __init__(self, n, m):
+            self.n, self.m = n, m
+
+    class Rec:
+        def __init__(self):
+            self.r, self.c = SInt(z3.Int("rows")), SInt(z3.Int("cols"))
+            CTX.assume(z3.And(self.r.term >= 1, self.c.term >= 1))
+            self.shape = (self.r, self.c)
+            self.dtype, self.device = "dtype", None
+            self.calls = []
+            outer = self
+
+            class X:
+                @staticmethod
+                def eye(n, m=None, dtype=None, device=None):
+                    return Eye(n, n if m is None else m)
+            self.xnp = X
+
+        def __matmul__(self, o):
+            self.calls.append(("right", o))
+            return "dense"
+
+        def __rmatmul__(self, o):
+            self.calls.append(("left", o))
+            return "dense"
+
+    def thunk():
+        A = Rec()
+        Eye.__matmul__ = lambda self, o: o.__rmatmul__(self)
+        out = LinearOperator.to_dense(A)
+        goals = []
+        if len(A.calls) != 1 or not isinstance(A.calls[0][1], Eye):
+            return [("to_dense is one product of the operator with an identity", z3.BoolVal(False))]
+        side, e = A.calls[0]
+        d = iterm(e.n)
+        mn = z3.If(A.r.term <= A.c.term, A.r.term, A.c.term)
+        goals.append(("the identity is square and matches the side it is multiplied on (rows on the left, columns on the right)",
+                      z3.And(iterm(e.m) == d, d == (A.r.term if side == "left" else A.c.term))))
+        goals.append(("the identity has dimension <= 8 min(rows, cols): a tall or wide block is densified through its short side", d <= 8 * mn))
+        return goals
+    try:
+        for path in explore(thunk, max_paths=8):
+            facts = path["hyps"] + path["pc"]
+            if path["outcome"] == "raise":
+                if isinstance(path["exc"], Unsupported):
+                    raise path["exc"]
+                results.setdefault("no exception", []).append((False, f"raises {type(path['exc']).__name__}: {str(path['exc'])[:200]}"))
+                continue
+            for label, fm in path["value"]:
+                res = alg.prove(facts, fm, 4000)
+                results.setdefault(label, []).append((res["status"] == "unsat", res["status"]))
+        status_of = lambda rs: DISCHARGED if all(r[0] for r in rs) else FAILED  # noqa
+    except Unsupported as e:
+        chk.add(Ob(key="C19/LinearOperator.to_dense/cost contract", fn="cola.ops.operator_base.LinearOperator.to_dense", clause="(all clauses)", engine="TAB", status=UNSUPPORTED,
+                   detail=f"Unsupported: {e}", secs=time.time() - t0))
+        return
+    for label, rs in results.items():
+        ob = Ob(key=f"C19/LinearOperator.to_dense/{label}", fn="cola.ops.operator_base.LinearOperator.to_dense", clause=label, engine="IDX", status=status_of(rs), backend="z3 (linear integer arithmetic)",
+                secs=(time.time() - t0) / max(1, len(results)), detail=f"{len(rs)} path(s)" if all(r[0] for r in rs) else str([r[1] for r in rs if not r[0]])[:200])
+        if ob.status == FAILED:
+            ob.witness = dict(engine="TODENSE")
+        chk.add(ob)
+    chk.under_contract("cola.ops.operator_base.LinearOperator.to_dense")
+
+
+def to_dense_replay():
+    import json
+    import subprocess
+    code = r'''
+import json, tracemalloc, numpy as np, cola
+from cola.ops.operator_base import LinearOperator
+out = dict(replayed=True, failing_input_found=False)
+for shape in ((4000, 20), (20, 4000)):
+    rng = np.random.default_rng(0)
+    B = rng.standard_normal(shape)
+    A = LinearOperator(np.float64, shape, matmat=lambda X, B=B: B @ X)
+    A._rmatmat = lambda X, B=B: X @ B
+    tracemalloc.start()
+    D = LinearOperator.to_dense(A)
+    cur, peak = tracemalloc.get_traced_memory()
+    tracemalloc.stop()
+    long_sq = max(shape) ** 2 * 8
+    if peak > long_sq / 4 or not np.allclose(D, B):
+        out = dict(replayed=True, failing_input_found=True, input=f"to_dense of a matrix-free {shape[0]} x {shape[1]} operator", observed=f"peak {peak} bytes", expected=f"a small multiple of the result ({B.nbytes} bytes), far below the square of the long side ({long_sq} bytes)")
+        break
+print(json.dumps(out))
+'''
+    p = subprocess.run(["/venv/bin/python", "-W", "ignore", "-c", code], cwd="/repo", capture_output=True, text=True, timeout=300)
+    try:
+        return json.loads(p.stdout.strip().splitlines()[-1])
+    except Exception:
+        return dict(replayed=False, failing_input_found=False, error=(p.stdout + p.stderr)[-500:])
